@@ -98,6 +98,10 @@ inline bool judge_step(Ctx &cx, HistState<T> &H, StepKind kind, const Opts &o, c
         }
     }
     if (nrhs > 0) {
+        // X(ldx, nrhs): the rows below n of every column and the element behind the array still hold the sentinel
+        { const T sv = sentinel_value<T>();
+          for (size_t q = 0; q < e.X.size(); ++q) { size_t i = q % (size_t)ldx, j = q / (size_t)ldx; if ((int)j < nrhs && (int)i < n) continue;
+              if (std::memcmp(&e.X[q], &sv, sizeof(T)) != 0) { cx.fail("x-padding-written", fmt("%s: element %zu of the solution array (row %zu of column %zu; n=%d ldx=%d ldb=%d nrhs=%d) lies outside X(1:n,1:nrhs) and was overwritten", tag, q, i, j, n, ldx, ldb, nrhs)); return false; } } }
         Dense<W> Op = o.trans == NOTRANS ? H.A_of_factors : transpose(H.A_of_factors, o.trans == CONJ);
         Dense<LD> F = permute_back(dec.E, e.perm_r.data(), e.perm_c.data(), n, !notran_eff);
         std::vector<LD> ydiv(n, 1), rdiv(n, 1);
@@ -217,7 +221,7 @@ inline bool run_history(Choice &c, Ctx &cx, bool light, unsigned char heapfill, 
         case ST_RESOLVE: e.so.Fact = FACTORED; break;
         case ST_QUERY: e.so.Fact = H.factors_ok ? SamePattern_SameRowPerm : (H.have_order ? SamePattern : DOFACT); if (e.so.Fact != SamePattern_SameRowPerm) e.destroy_factors(); if (e.so.Fact == DOFACT && base.colperm == MY_PERMC) e.perm_c = base.my_perm_c; lwork_call = -1; break;
         }
-        int ldb = n + (int)c.below(2), ldx = n + (int)c.below(2);
+        int ldb = n + (int)(c.u8() % 4u) % 3, ldx = n + (int)(c.u8() % 4u) % 3;   // 0,1,2,0 - independent of each other
         e.nrhs = nrhs; e.ldb = ldb; e.ldx = ldx;
         e.B = gen_rhs<T>(c, n, nrhs, ldb, cplx);
         e.X.assign((size_t)ldx * nrhs + 1, sentinel_value<T>());
